@@ -147,7 +147,8 @@ class ParseSource(Contract):
     def clause_props(self, name, kind):
         if "ownership" in name or "exactly-one" in name:
             return ("C17", "C01", "C11")
-        return ("C01", "C17", "C11", "C06")
+        # parse_source is a function of the text alone: every property that quantifies over several texts relies on it
+        return ("C01", "C02", "C05", "C06", "C07", "C08", "C09", "C11", "C13", "C14", "C17")
 
 
 class GenerateCode(Contract):
